@@ -608,9 +608,8 @@ class CompilerPassCheckConstValue(CompilerPass):
         if fname in self.data.functions:
             func_data = self.data.functions[fname]
             if func_data.is_emit:
-                lines = eval_constexpr(self.data, node)
-                for line in lines:
-                    data.add(IC10Instruction(line))
+                # raw lines are added by the code generator where the call is compiled
+                pass
 
             elif func_data.is_constexpr:
                 value = eval_constexpr(self.data, node)
